@@ -1467,7 +1467,13 @@ func (e *compiledFunctionLiteral) compile() (prg *Program, name unistring.String
 					e.c.p.code[markGet] = loadStackLex(-i - 1)
 				}
 				s.bindings[i].emitInitP()
-				e.c.p.code[mark] = jdefP(len(e.c.p.code) - mark)
+				if firstForwardRef == -1 {
+					e.c.p.code[mark] = jdefP(len(e.c.p.code) - mark)
+				} else {
+					// the parameter lives in the stash and enterFunc1 does not pre-fill it:
+					// a supplied argument has to be stored by the initP as well
+					e.c.p.code[mark] = jdef(len(e.c.p.code) - mark - 1)
+				}
 			} else {
 				if firstForwardRef == -1 && s.bindings[i].useCount() > 0 {
 					firstForwardRef = i
